@@ -45,6 +45,7 @@ type Req struct {
 	Param   string      `json:"param,omitempty"`   // ok | missing | bad (only when the operation declares n)
 	Outcome string      `json:"outcome,omitempty"` // value | nil | responder | mwerror | notimpl | errplain | errstatus | errcomposite
 	Code    int         `json:"code,omitempty"`    // status of mwerror / errstatus
+	Route   string      `json:"route,omitempty"`   // "" | notfound (unknown path) | wrongmethod (PATCH, never declared)
 }
 
 // Case is one API and a batch of requests.
@@ -322,6 +323,12 @@ func Check(c Case) *kit.Violation {
 				target += "?n=7"
 			}
 		}
+		switch rq.Route {
+		case "notfound":
+			target = "/nowhere" + target
+		case "wrongmethod":
+			method = http.MethodPatch
+		}
 		req := httptest.NewRequest(method, target, nil)
 		if len(lines) > 0 {
 			req.Header["Accept"] = lines
@@ -376,6 +383,26 @@ func Check(c Case) *kit.Violation {
 			return nil
 		}
 
+		// 0. routing: no operation matches; the error (404 / 405) goes to the error responder
+		if rq.Route == "notfound" || rq.Route == "wrongmethod" {
+			want := int32(http.StatusNotFound)
+			if rq.Route == "wrongmethod" {
+				want = http.StatusMethodNotAllowed
+			}
+			if call.ran != 0 {
+				return kit.Failf("ROUTING %s; a handler ran for a request no operation matches", desc)
+			}
+			if len(log) != 1 || log[0].err == nil || rec.Code != responderStatus || body != "ERR" {
+				return kit.Failf("ROUTING %s; the API's error responder must be invoked exactly once and write the answer", desc)
+			}
+			if !findCode(log[0].err, want) {
+				return kit.Failf("ROUTING %s; the error handed to the responder is %v, want code %d", desc, log[0].err, want)
+			}
+			if log[0].ct == "" {
+				return kit.Failf("ROUTING %s; the error responder saw no Content-Type (JSON when nothing was negotiated)", desc)
+			}
+			continue
+		}
 		// 1. authentication
 		if op.Secured && rq.Cred != "good" {
 			if call.ran != 0 {
